@@ -60,8 +60,9 @@ func runC41(c *an.Ctx) {
 			}
 		}
 	}
-	withWrappers := func(g *an.Guard) []*an.Guard {
-		gs, names := an.DiscoverWrappers(helpers, []*an.Guard{g}, 4, nil)
+	withWrappers := func(base ...*an.Guard) []*an.Guard {
+		g := base[0]
+		gs, names := an.DiscoverWrappers(helpers, base, 4, nil)
 		if len(names) > 0 {
 			c.Note("wrappers|auth.verifyToken|"+g.Name, "helpers of verifyToken that return true only if the guard passed inside them", c.P.Rel(vt.Pos()), strings.Join(names, ", "))
 		}
@@ -84,12 +85,9 @@ func runC41(c *an.Ctx) {
 		}
 		return f != nil && f.Name() == "expireTime"
 	}
-	expired := &an.Guard{Name: "expireTime < now", FailValue: an.ATrue, MatchValue: func(v ssa.Value) bool {
-		b, ok := v.(*ssa.BinOp)
-		if !ok || b.Op != token.LSS {
-			return false
-		}
-		ops := expiryOperands(b.X, nil)
+	// expireTime < now, in any spelling (now > expireTime, !(expireTime >= now), ...)
+	isExpiryOperand := func(x ssa.Value) bool {
+		ops := expiryOperands(x, nil)
 		if len(ops) == 0 {
 			return false
 		}
@@ -99,8 +97,17 @@ func runC41(c *an.Ctx) {
 			}
 		}
 		return true
-	}}
-	v = an.GuardedReturns(c.P, vt, withWrappers(expired), trueSpec(vt), false)
+	}
+	notExpiryOperand := func(y ssa.Value) bool { return !isExpiryOperand(y) }
+	expiredMatch := func(v ssa.Value) bool { m, _ := relMatch(v, token.LSS, isExpiryOperand, notExpiryOperand); return m }
+	expiryOf := func(b *ssa.BinOp) (exp, other ssa.Value) {
+		if isExpiryOperand(b.X) {
+			return b.X, b.Y
+		}
+		return b.Y, b.X
+	}
+	expired := relGuards("expireTime < now", token.LSS, isExpiryOperand, notExpiryOperand)
+	v = an.GuardedReturns(c.P, vt, withWrappers(expired...), trueSpec(vt), false)
 	c.Check(v.Holds && v.GuardSites >= 2, "guard|auth.verifyToken|not-expired", "verifyToken never returns true for a token or delegation whose expiry time is before the current block time", c.P.Rel(vt.Pos()), v.Witness)
 	// the comparison is against native.Time
 	var expiryTests []*ssa.BinOp
@@ -108,9 +115,9 @@ func runC41(c *an.Ctx) {
 	for _, g := range an.InlineReach(vt) {
 		for _, b := range g.Blocks {
 			for _, in := range b.Instrs {
-				if bo, ok := in.(*ssa.BinOp); ok && expired.MatchValue(bo) {
+				if bo, ok := in.(*ssa.BinOp); ok && expiredMatch(bo) {
 					expiryTests = append(expiryTests, bo)
-					if f := fieldOfLoad(an.ResolveActual(vt, bo.Y)); f == nil || f.Name() != "Time" {
+					if _, now := expiryOf(bo); fieldOfLoad(an.ResolveActual(vt, now)) == nil || fieldOfLoad(an.ResolveActual(vt, now)).Name() != "Time" {
 						timeBad = c.P.Rel(bo.Pos())
 					}
 				}
@@ -146,7 +153,7 @@ func runC41(c *an.Ctx) {
 				if bo.Parent() != k.Parent() {
 					continue
 				}
-				for _, ev := range an.DerefCtx(vt, bo.X, nil) {
+				for _, ev := range an.DerefCtx(vt, func() ssa.Value { e, _ := expiryOf(bo); return e }(), nil) {
 					if ctxKey(ev.Ctx) != ctxKey(rv.Ctx) {
 						continue
 					}
